@@ -1444,6 +1444,194 @@ theorem account_update_interleavings :
 -- three requests: two contact updates racing one deactivation, fully interleaved
 example : (updRunN .valid [reqContact, reqDeact, reqContact] [0, 1, 2, 1, 0, 2]).1 = .deactivated := by decide
 
+/-! ## … down to the compare-and-swap of the store (stage `acctrace`, 20 interleavings)
+
+  `CasInv`: every copy that waits for its swap carries a version ≤ the record's, and if it carries THE record's
+  version then the guard it passed holds for the record as it is now (a deactivated record ⇒ the copy writes
+  `deactivated`). A write bumps the version, so every other waiting copy is stale from then on. -/
+
+def CasInv (r : Status × Nat) (ts : List CThread) : Prop :=
+  ∀ t ∈ ts, ∀ seen v, t.pc = .read seen v →
+    v ≤ r.2 ∧ (v = r.2 → r.1 = .deactivated → newStatus t.kind seen = .deactivated)
+
+def CServedDeact (ts : List CThread) : Prop := ∃ t ∈ ts, t.kind = .deactivate ∧ t.pc = .done .ok
+
+/-- threads other than the one that moved keep the invariant when the record did not change -/
+theorem casInv_same {r : Status × Nat} {ts : List CThread} {i : Nat} {t' : CThread}
+    (hinv : CasInv r ts) (ht' : ∀ seen v, t'.pc = .read seen v →
+      v ≤ r.2 ∧ (v = r.2 → r.1 = .deactivated → newStatus t'.kind seen = .deactivated)) :
+    CasInv r (setNth ts i t') := by
+  intro x hx seen v hp
+  rcases mem_setNth hx with rfl | hx'
+  · exact ht' seen v hp
+  · exact hinv x hx' seen v hp
+
+/-- … and when it was written (version + 1): no waiting copy carries the new version -/
+theorem casInv_written {r : Status × Nat} {ts : List CThread} {i : Nat} {t' : CThread} {st : Status}
+    (hinv : CasInv r ts) (ht' : ∀ seen v, t'.pc ≠ .read seen v) :
+    CasInv (st, r.2 + 1) (setNth ts i t') := by
+  intro x hx seen v hp
+  rcases mem_setNth hx with rfl | hx'
+  · exact absurd hp (ht' seen v)
+  · have := (hinv x hx' seen v hp).1
+    exact ⟨Nat.le_succ_of_le this, fun hv => by simp at hv; omega⟩
+
+/-- one step of a request of the list keeps the invariant; a deactivated record stays deactivated; a deactivation
+    that becomes served has stored `deactivated` -/
+theorem casStep_inv {r : Status × Nat} {ts : List CThread} {i : Nat} {t : CThread}
+    (hi : ts[i]? = some t) (hinv : CasInv r ts) :
+    CasInv (casStep r t).1 (setNth ts i (casStep r t).2) ∧
+    (r.1 = .deactivated → (casStep r t).1.1 = .deactivated) ∧
+    (((casStep r t).2.kind = .deactivate ∧ (casStep r t).2.pc = .done .ok) →
+      (t.kind = .deactivate ∧ t.pc = .done .ok) ∨ (casStep r t).1.1 = .deactivated) := by
+  have hmem : t ∈ ts := List.mem_of_getElem? hi
+  obtain ⟨k, pc⟩ := t
+  cases pc with
+  | start =>
+    by_cases hc : r.1 ≠ .valid
+    · have e : casStep r ⟨k, .start⟩ = (r, ⟨k, .done .unauthorized⟩) := by simp only [casStep, if_pos hc]
+      rw [e]
+      exact ⟨casInv_same hinv (by intro _ _ h; simp at h), id, by intro h; simp at h⟩
+    · have e : casStep r ⟨k, .start⟩ = (r, ⟨k, .loaded r.1⟩) := by simp only [casStep, if_neg hc]
+      rw [e]
+      exact ⟨casInv_same hinv (by intro _ _ h; simp at h), id, by intro h; simp at h⟩
+  | done b =>
+    have e : casStep r ⟨k, .done b⟩ = (r, ⟨k, .done b⟩) := rfl
+    rw [e]
+    exact ⟨casInv_same hinv (by intro _ _ h; simp at h), id, fun h => .inl h⟩
+  | loaded s =>
+    by_cases hc : r.1 = .deactivated ∧ newStatus k s ≠ .deactivated
+    · have e : casStep r ⟨k, .loaded s⟩ = (r, ⟨k, .done .unauthorized⟩) := by simp only [casStep, if_pos hc]
+      rw [e]
+      exact ⟨casInv_same hinv (by intro _ _ h; simp at h), id, by intro h; simp at h⟩
+    · have e : casStep r ⟨k, .loaded s⟩ = (r, ⟨k, .read s r.2⟩) := by simp only [casStep, if_neg hc]
+      rw [e]
+      refine ⟨casInv_same hinv ?_, id, by intro h; simp at h⟩
+      intro seen v hp
+      simp only [CPc.read.injEq] at hp
+      obtain ⟨rfl, rfl⟩ := hp
+      refine ⟨Nat.le_refl _, fun _ hd => ?_⟩
+      apply Classical.byContradiction
+      intro hn
+      exact hc ⟨hd, hn⟩
+  | read s v0 =>
+    have hme := hinv _ hmem s v0 rfl
+    by_cases hc : v0 ≠ r.2
+    · have e : casStep r ⟨k, .read s v0⟩ = (r, ⟨k, .done .conflict⟩) := by simp only [casStep, if_pos hc]
+      rw [e]
+      exact ⟨casInv_same hinv (by intro _ _ h; simp at h), id, by intro h; simp at h⟩
+    · have e : casStep r ⟨k, .read s v0⟩ = ((newStatus k s, r.2 + 1), ⟨k, .done .ok⟩) := by
+        simp only [casStep, if_neg hc]
+      rw [e]
+      have hv : v0 = r.2 := by
+        apply Classical.byContradiction; intro hn; exact hc hn
+      refine ⟨casInv_written hinv (by intro _ _ h; simp at h), fun h => hme.2 hv h, ?_⟩
+      intro h
+      right
+      have hk : k = .deactivate := h.1
+      subst hk
+      rfl
+
+theorem casRunN_inv (r : Status × Nat) (ts : List CThread) (sched : List Nat)
+    (hinv : CasInv r ts) (hs : CServedDeact ts → r.1 = .deactivated) :
+    CasInv (casRunN r ts sched).1 (casRunN r ts sched).2 ∧
+    (r.1 = .deactivated → (casRunN r ts sched).1.1 = .deactivated) ∧
+    (CServedDeact (casRunN r ts sched).2 → (casRunN r ts sched).1.1 = .deactivated) := by
+  induction sched generalizing r ts with
+  | nil => exact ⟨hinv, id, hs⟩
+  | cons i rest ih =>
+    simp only [casRunN]
+    cases hi : ts[i]? with
+    | none => exact ih r ts hinv hs
+    | some t =>
+      simp only []
+      obtain ⟨h1, h2, h3⟩ := casStep_inv hi hinv
+      have hs' : CServedDeact (setNth ts i (casStep r t).2) → (casStep r t).1.1 = .deactivated := by
+        intro ⟨x, hx, hk, hp⟩
+        rcases mem_setNth hx with rfl | hx'
+        · rcases h3 ⟨hk, hp⟩ with ⟨a, b⟩ | h
+          · exact h2 (hs ⟨t, List.mem_of_getElem? hi, a, b⟩)
+          · exact h
+        · exact h2 (hs ⟨x, hx', hk, hp⟩)
+      obtain ⟨g1, g2, g3⟩ := ih _ _ h1 hs'
+      exact ⟨g1, fun h => g2 (h2 h), g3⟩
+
+theorem casInv_start (r : Status × Nat) (kinds : List UpdKind) : CasInv r (kinds.map (⟨·, .start⟩)) := by
+  intro t ht seen v hp
+  simp only [List.mem_map] at ht
+  obtain ⟨k, _, rfl⟩ := ht
+  cases hp
+
+theorem casRunN_append (r : Status × Nat) (ts : List CThread) (s1 s2 : List Nat) :
+    casRunN r ts (s1 ++ s2) = casRunN (casRunN r ts s1).1 (casRunN r ts s1).2 s2 := by
+  induction s1 generalizing r ts with
+  | nil => rfl
+  | cons i rest ih =>
+    simp only [List.cons_append, casRunN]
+    cases hi : ts[i]? with
+    | none => exact ih r ts
+    | some t => exact ih _ _
+
+/-- **cas_deactivation_sticks.** Any number of account-update requests, each in any state (also holding a copy read
+    while the account was valid), any interleaving of their three store steps: once the stored record is deactivated
+    it is deactivated in every later state. The compare-and-swap is what makes it true: the copy of a contact update
+    that read a valid record is stale after the deactivation was written. -/
+theorem cas_deactivation_sticks (r : Status × Nat) (ts : List CThread) (sched : List Nat)
+    (hinv : CasInv r ts) (h : r.1 = .deactivated) : (casRunN r ts sched).1.1 = .deactivated :=
+  (casRunN_inv r ts sched hinv (fun _ => h)).2.1 h
+
+/-- … from a valid account with every request at its beginning, from whatever point on the deactivation is stored -/
+theorem cas_deactivation_sticks_init (kinds : List UpdKind) (s1 s2 : List Nat)
+    (h : (casRunN (.valid, 0) (kinds.map (⟨·, .start⟩)) s1).1.1 = .deactivated) :
+    (casRunN (.valid, 0) (kinds.map (⟨·, .start⟩)) (s1 ++ s2)).1.1 = .deactivated := by
+  rw [casRunN_append]
+  have hs : CServedDeact (kinds.map (⟨·, CPc.start⟩)) → ((Status.valid, 0) : Status × Nat).1 = .deactivated := by
+    intro ⟨t, ht, _, hp⟩
+    simp only [List.mem_map] at ht
+    obtain ⟨k, _, rfl⟩ := ht
+    cases hp
+  exact cas_deactivation_sticks _ _ s2 (casRunN_inv _ _ s1 (casInv_start _ kinds) hs).1 h
+
+/-- **cas_deactivation_served_sticks_init.** In every reachable state in which a deactivation has been answered 200
+    the stored account is deactivated. -/
+theorem cas_deactivation_served_sticks_init (kinds : List UpdKind) (sched : List Nat) :
+    CServedDeact (casRunN (.valid, 0) (kinds.map (⟨·, .start⟩)) sched).2 →
+      (casRunN (.valid, 0) (kinds.map (⟨·, .start⟩)) sched).1.1 = .deactivated := by
+  apply (casRunN_inv _ _ sched (casInv_start _ kinds) ?_).2.2
+  intro ⟨t, ht, _, hp⟩
+  simp only [List.mem_map] at ht
+  obtain ⟨k, _, rfl⟩ := ht
+  cases hp
+
+def cDeact : CThread := ⟨.deactivate, .start⟩
+def cContact : CThread := ⟨.contact, .start⟩
+
+def interleave3 : List (List Bool) :=
+  [[false,false,false,true,true,true],[false,false,true,false,true,true],[false,false,true,true,false,true],[false,false,true,true,true,false],
+   [false,true,false,false,true,true],[false,true,false,true,false,true],[false,true,false,true,true,false],[false,true,true,false,false,true],
+   [false,true,true,false,true,false],[false,true,true,true,false,false],[true,false,false,false,true,true],[true,false,false,true,false,true],
+   [true,false,false,true,true,false],[true,false,true,false,false,true],[true,false,true,false,true,false],[true,false,true,true,false,false],
+   [true,true,false,false,false,true],[true,true,false,false,true,false],[true,true,false,true,false,false],[true,true,true,false,false,false]]
+
+/-- **cas_update_interleavings** (table, `decide`; what stage `acctrace` demands of the real handlers and store): all
+    20 interleavings of a deactivation A and a contact update B at three store steps each (lookup, re-read, swap):
+    stored status (D/V), answer to A, answer to B (o = 200, u = 401, c = 500 changed since last read). A deactivation
+    that is answered 200 is stored in every row; where the account stays valid the deactivation lost the swap and was
+    answered 500. -/
+def casRow (s : List Bool) : String :=
+  let x := casRun2 (.valid, 0) cDeact cContact s
+  let r : CPc → String := fun pc => match pc with
+    | .done .ok => "o" | .done .unauthorized => "u" | .done .conflict => "c" | _ => "?"
+  (if x.1.1 = .deactivated then "D" else "V") ++ r x.2.1.pc ++ r x.2.2.pc
+
+theorem cas_update_interleavings :
+    interleave3.map casRow =
+      ["Dou", "Dou", "Doc", "Vco", "Dou", "Doc", "Vco", "Doc", "Vco", "Doo", "Dou", "Doc", "Vco", "Doc", "Vco", "Doo",
+       "Doc", "Vco", "Doo", "Doo"] := by decide
+
+-- the interleaving of seed r6 C12/1: B reads (valid), A reads, A swaps (deactivated, 200), B swaps: refused, 500
+example : casRow [true, true, false, false, false, true] = "Doc" := by decide
+
 /-- historic (before commit 48b7457): `UpdateAccount` copied the status of the handler's stale copy
     without looking at the stored one; load_A load_B update_A update_B left the account valid -/
 def updStepBeforeFix (st : Status) (t : UpdThread) : Status × UpdThread :=
